@@ -54,6 +54,11 @@ class Ctx:
 
     # ---------- Role A: model checking the spec ----------
     def model_check(self, module, cfg=None, cfg_text=None, what=None, workers=NCPU, **kw):
+        if os.environ.get("VERIF_SKIP_A") and os.environ.get("VERIF_REPO") and "dump" not in kw and "simulate" not in kw:
+            # mutation analysis of a scratch tree (tools/mutate.py): role A does not depend on the code, so it is not repeated
+            # for every mutant.  Never honoured for /repo itself.
+            self.extra["role_A_skipped"] = True
+            return None
         r = tlc.run(module, cfg=cfg, cfg_text=cfg_text, workers=workers, **kw)
         tlc.require_ok(r, what or module)
         self.states += r.distinct
